@@ -121,6 +121,9 @@ type scanner struct {
 	skippedLocal int
 	nctx         map[int]int
 	warnings     []string
+	foreign      map[string]*foreignSite // calls that leave the scanned code while a mutex is held (reentry.go)
+	queries      []queryOut              // exported read-only methods (public getters) and what they acquire
+	provCache    *provenance
 }
 
 func isSyncType(t types.Type) bool {
@@ -161,6 +164,7 @@ func newScanner(ld *loader, own *ownership) *scanner {
 		structs: map[*types.TypeName]*structInfo{}, fieldOwner: map[*types.Var]*structInfo{},
 		funcs: map[*types.Func]*unit{}, lits: map[*ast.FuncLit]*unit{}, goIDs: map[*ast.GoStmt]int{},
 		onceIDs: map[*unit]int{}, spawnPick: map[string]string{}, byName: map[string]*structInfo{}, nctx: map[int]int{}, done: map[string]bool{}, rows: map[string]*row{}, edges: map[string]*edge{},
+		foreign: map[string]*foreignSite{},
 	}
 	if ip, err := ld.gc.Import(modulePath); err == nil {
 		if o := ip.Scope().Lookup("Interceptor"); o != nil {
@@ -1444,6 +1448,9 @@ func (w *walker) callWith(e *ast.CallExpr, goCtx *ctx) {
 		callee, _ = w.info.Uses[f].(*types.Func)
 		if callee == nil {
 			w.expr(f) // call through a function value
+			if goCtx == nil {
+				w.noteForeignCall(e, "function-value")
+			}
 		}
 	case *ast.SelectorExpr:
 		if sel := w.info.Selections[f]; sel != nil {
@@ -1453,6 +1460,9 @@ func (w *walker) callWith(e *ast.CallExpr, goCtx *ctx) {
 				recvExpr = f.X
 			case types.FieldVal:
 				w.expr(f) // func-typed field
+				if goCtx == nil {
+					w.noteForeignCall(e, "function-value")
+				}
 
 				return
 			}
@@ -1465,6 +1475,9 @@ func (w *walker) callWith(e *ast.CallExpr, goCtx *ctx) {
 		return
 	default:
 		w.expr(e.Fun)
+		if goCtx == nil {
+			w.noteForeignCall(e, "function-value")
+		}
 
 		return
 	}
@@ -1477,6 +1490,8 @@ func (w *walker) callWith(e *ast.CallExpr, goCtx *ctx) {
 	} else if recvExpr != nil {
 		if it, ok := w.info.TypeOf(recvExpr).Underlying().(*types.Interface); ok && w.localIface(w.info.TypeOf(recvExpr)) {
 			targets = w.sc.implementers(it, callee.Name())
+		} else if goCtx == nil && w.foreignIface(w.info.TypeOf(recvExpr)) {
+			w.noteForeignCall(e, "interface-method")
 		}
 	}
 	if recvExpr != nil {
